@@ -8,6 +8,9 @@ Streams (group -> Coq checker):
                               actual call and passed to the model as its oracle; their contract is monitored
   meas_reg   chk_meas_reg     _append_measurement_register
   meas_circ  chk_meas_circ    _append_measurement_circuit (qubit_locations given/omitted, three refusal classes, crashes)
+  reuse      chk_reuse        use then re-inspect: a group (incl. all-identity ones, and groups taken out of an ObservableCollection)
+                              is used for a register, a measurement circuit and _process_outcome, several times, and its
+                              pauli_indices / pauli_bitmasks / observables are re-read after every step
   physics    chk_physics      random entangled preparation + the appended suffix, simulated by the numpy code below;
                               the model's masks/decoding must reproduce Statevector.expectation_value(member)
 `judge` is independent of the Coq model: plain Python restatement of the property text + own numpy simulator.
@@ -20,7 +23,7 @@ from fractions import Fraction
 import numpy as np
 from qiskit.circuit import QuantumCircuit, QuantumRegister, ClassicalRegister
 from qiskit.circuit.library import HGate, SXGate, SXdgGate
-from qiskit.quantum_info import Pauli, PauliList, Statevector, Operator
+from qiskit.quantum_info import Pauli, PauliList, Statevector, DensityMatrix, Operator
 
 from qiskit_addon_cutting.utils.observable_grouping import (
     most_general_observable,
@@ -31,8 +34,9 @@ from qiskit_addon_cutting.cutting_experiments import (
     _append_measurement_register,
     _append_measurement_circuit,
 )
+from qiskit_addon_cutting.cutting_reconstruction import _process_outcome
 
-from common import CaseWriter, Res, Raw, Nc, Qc, Opt, call_canon, coq
+from common import CaseWriter, Res, Raw, Nc, Zc, Qc, Opt, call_canon, coq
 from circ import CircCtx, coq_circ
 
 IMPORTS = ("From Coq Require Import QArith.\n"
@@ -42,8 +46,9 @@ CASE_TYPES = {
     "chk_mgo": "list pauli * option nat * res pauli",
     "chk_cog": "pauli * list pauli * res (list nat * list N)",
     "chk_collection": "list pauli * list pauli * list (list pauli) * res (list cog_tuple * lookup_t)",
-    "chk_meas_reg": "mc_tuple * list nat * res mc_tuple",
-    "chk_meas_circ": "nat * nat * mc_tuple * list nat * list nat * option (list nat) * res mc_tuple",
+    "chk_meas_reg": "mc_tuple * cog_tuple * res mc_tuple * cog_tuple",
+    "chk_meas_circ": "nat * nat * mc_tuple * cog_tuple * option (list nat) * res mc_tuple * cog_tuple",
+    "chk_reuse": "cog_tuple * list cog_tuple * list (N * list Z)",
     "chk_physics": "pauli * list pauli * list (N * Q) * list Q",
 }
 LET = {(False, False): 0, (True, False): 1, (True, True): 2, (False, True): 3}
@@ -242,23 +247,42 @@ def sim_apply(psi, n, name, params, qs):
     return sim_apply1(psi, n, _mat(name, params), qs[0])
 
 
+def sim_reset(psi, q):
+    """reset = measure q, flip if 1: the two unnormalised branches P0|psi> and X P1|psi>."""
+    b0 = psi.copy()
+    b1 = np.zeros_like(psi)
+    for i in range(len(psi)):
+        if (i >> q) & 1:
+            b0[i] = 0
+            b1[i ^ (1 << q)] = psi[i]
+    return [b for b in (b0, b1) if float(np.vdot(b, b).real) > 0]
+
+
 def sim_prepare(n, ops):
+    """Returns the state as a list of unnormalised pure branches (an ensemble; more than one only after a reset)."""
     psi = np.zeros(2 ** n, dtype=complex)
     psi[0] = 1
+    branches = [psi]
     for name, params, qs in ops:
-        psi = sim_apply(psi, n, name, params, qs)
-    return psi
+        if name == "reset":
+            branches = [b for psi in branches for b in sim_reset(psi, qs[0])]
+        else:
+            branches = [sim_apply(psi, n, name, params, qs) for psi in branches]
+    return branches
 
 
-def sim_pauli_expectation(psi, n, lets_by_qubit):
-    phi = psi
-    for q, l in enumerate(lets_by_qubit):
-        if l:
-            phi = sim_apply1(phi, n, _PAULI[l], q)
-    return float(np.real(np.vdot(psi, phi)))
+def sim_pauli_expectation(branches, n, lets_by_qubit):
+    tot = 0.0
+    for psi in branches:
+        phi = psi
+        for q, l in enumerate(lets_by_qubit):
+            if l:
+                phi = sim_apply1(phi, n, _PAULI[l], q)
+        tot += float(np.real(np.vdot(psi, phi)))
+    return tot
 
 
-def sim_register_law(psi, n, suffix, reg_bits):
+def sim_register_law(branches, n, suffix, reg_bits):
     """Outcome law of the register `reg_bits` (list of clbit indices, bit i of the word = reg_bits[i]) after the
     suffix (list of [name, qubit(s), clbit(s)]).  Only terminal measurements: a qubit is not touched after being measured."""
     measured = {}
@@ -270,10 +294,10 @@ def sim_register_law(psi, n, suffix, reg_bits):
         else:
             if any(q in measured for q in qs):
                 raise ValueError("simulator: gate after measurement")
-            psi = sim_apply(psi, n, name, [], qs)
+            branches = [sim_apply(psi, n, name, [], qs) for psi in branches]
     pos = {c: i for i, c in enumerate(reg_bits)}
     law = {}
-    pr = np.abs(psi) ** 2
+    pr = sum(np.abs(psi) ** 2 for psi in branches)
     for i, p in enumerate(pr):
         w = 0
         for q, c in measured.items():
@@ -486,7 +510,35 @@ def exec_meas(case):
             kw["qubit_locations"] = case["locs"]
         r = call_canon(_append_measurement_circuit, qc, cog, **kw)
         _, case["impl"] = mc_res(r, ctx)
+    case["cog_after"] = canon_cog(cog)  # the group re-read after it has been used
     case["gh"], case["gsx"] = gh, gsx
+    return case
+
+
+def exec_reuse(case):
+    """use then re-inspect.  case: cog | from_collection (paulis, group index), nq, steps = list of
+    ["register"] | ["circuit"] | ["outcome", int].  The group object is used for every step in turn and re-read after each."""
+    if case.get("from_collection") is not None:
+        cs, gi = case["from_collection"]
+        cog = ObservableCollection(PauliList(mk_plist(cs))).groups[gi]
+    else:
+        cog = make_cog(case["cog"])
+    case["cog_fields"] = canon_cog(cog)
+    n = len(case["cog_fields"][0][1])
+    afters, outs, errors = [], [], []
+    for st in case["steps"]:
+        if st[0] == "register":
+            r = call_canon(_append_measurement_register, QuantumCircuit(n), cog)
+        elif st[0] == "circuit":
+            r = call_canon(lambda: _append_measurement_circuit(_append_measurement_register(QuantumCircuit(n), cog), cog))
+        else:
+            r = call_canon(_process_outcome, cog, st[1])
+            if r[0] == "ok":
+                outs.append([st[1], [int(x) for x in r[1]], bool(all(float(x) in (1.0, -1.0) for x in r[1]))])
+        if r[0] != "ok":
+            errors.append([st, r[0], r[1]])
+        afters.append(canon_cog(cog))
+    case["impl"] = dict(afters=afters, outs=outs, errors=errors)
     return case
 
 
@@ -495,12 +547,14 @@ def exec_physics(case):
     nq, locs = case["nq"], case["locs"]
     ctx, gh, gsx = fresh_ctx()
     qc = build_circuit(dict(nq=nq, cregs=case["cregs"], ops=case["prep"]))
-    sv = Statevector(qc)
+    has_reset = any(o[0] == "reset" for o in case["prep"])
+    sv = DensityMatrix(qc) if has_reset else Statevector(qc)
     cog = make_cog(case["cog"])
     case["cog_fields"] = canon_cog(cog)
     qc2 = _append_measurement_register(qc, cog)
     identity = locs == list(range(nq)) and case["omit_locs"]
     r = call_canon(_append_measurement_circuit, qc2, cog, **({} if identity else {"qubit_locations": locs}))
+    case["cog_after"] = canon_cog(cog)
     if r[0] != "ok":
         case["impl"] = [r[0], r[1]]
         return case
@@ -532,6 +586,7 @@ def generate(rng, tier, outdir):
     n_cog = 300 if quick else 5000
     n_meas = 350 if quick else 6000
     n_phys = 160 if quick else 3000
+    n_reuse = 150 if quick else 2500
 
     # the physics specification of Model/Measurement.v part B is the matrices qiskit uses
     w.contract("gate_matrix_h", np.allclose(Operator(HGate()).data, _MATS["h"], atol=1e-12))
@@ -712,7 +767,8 @@ def generate(rng, tier, outdir):
         rcase = exec_meas(rcase)
         ri = rcase["impl"]
         w.add("meas_reg", "chk_meas_reg",
-              (coq_mc(rcase["input"]), list(rcase["cog_fields"][2]), Res("ok", coq_mc(ri[1])) if ri[0] == "ok" else Res(ri[0])),
+              (coq_mc(rcase["input"]), coq_cog(rcase["cog_fields"]), Res("ok", coq_mc(ri[1])) if ri[0] == "ok" else Res(ri[0]),
+               coq_cog(rcase["cog_after"])),
               rcase, nontrivial=(ri[0] == "ok"))
         w.count("meas_reg.outcome", ri[0])
         w.count("meas_reg.size", len(rcase["cog_fields"][2]) or "dummy")
@@ -720,12 +776,52 @@ def generate(rng, tier, outdir):
         case = exec_meas(dict(kind="meas_circ", recipe=recipe, cog=cogc, inplace=inplace, locs=locs, reg_for=reg_for))
         mi = case["impl"]
         w.add("meas_circ", "chk_meas_circ",
-              (case["gh"], case["gsx"], coq_mc(case["input"]), list(case["cog_fields"][0][1]), list(case["cog_fields"][2]),
+              (case["gh"], case["gsx"], coq_mc(case["input"]), coq_cog(case["cog_fields"]),
                Opt(list(locs), some=True) if locs is not None else Opt(),
-               Res("ok", coq_mc(mi[1])) if mi[0] == "ok" else Res(mi[0])),
+               Res("ok", coq_mc(mi[1])) if mi[0] == "ok" else Res(mi[0]), coq_cog(case["cog_after"])),
               case, nontrivial=(mi[0] == "ok" and len(mi[1]["data"]) > len(case["input"]["data"]) + 1))
         w.count("meas_circ.mode", name)
         w.count("meas_circ.outcome", mi[0])
+
+    # ---------------- use then re-inspect ----------------
+    for it in range(n_reuse):
+        n = int(rng.integers(1, 6))
+        case = dict(kind="reuse")
+        mode = int(rng.integers(0, 4))
+        if mode == 0:  # all-identity group built directly
+            case["cog"] = [[0, [0] * n], [[0, [0] * n]]]
+            name = "all-identity"
+        elif mode == 1:  # a group taken out of a collection that contains the identity
+            cs, _ = gen_paulis(rng, n)
+            cs = cs[:8] + [[0, [0] * n]]
+            impl, _, _ = run_collection(cs, False)
+            gi = [i for i, c in enumerate(impl[1]) if any(not any(m[1]) for m in c[1])][0]
+            if rng.integers(0, 2):
+                gi = int(rng.integers(0, len(impl[1])))
+            case["from_collection"] = [cs, gi]
+            name = "from-collection"
+        elif mode == 2 and valid_groups:
+            g = valid_groups[int(rng.integers(0, len(valid_groups)))]
+            case["cog"] = [[0, list(g[0][1])], [[0, list(m[1])] for m in g[1]]]
+            name = "valid"
+        else:
+            case["cog"] = gen_cog_canon(rng, n)
+            name = "consistent"
+        steps = []
+        for _ in range(int(rng.integers(2, 7))):
+            r = int(rng.integers(0, 4))
+            steps.append(["register"] if r == 0 else ["circuit"] if r == 1 else ["outcome", int(rng.integers(0, 1 << 9))])
+        case["steps"] = steps
+        case = exec_reuse(case)
+        before = case["cog_fields"]
+        ri = case["impl"]
+        assert not ri["errors"], ri["errors"]
+        w.add("reuse", "chk_reuse",
+              (coq_cog(before), [coq_cog(a) for a in ri["afters"]], [(Nc(o), [Zc(x) for x in r]) for o, r, _ in ri["outs"]]),
+              case, nontrivial=True)
+        w.count("reuse.mode", name)
+        w.count("reuse.measured_qubits", len(before[2]) or "dummy")
+        w.count("reuse.steps", len(steps))
 
     # ---------------- physics ----------------
     max_dev = 0.0
@@ -741,6 +837,14 @@ def generate(rng, tier, outdir):
         locs = list(range(nq))[:n] if (nq == n and omit) else [int(x) for x in rng.permutation(nq)[:n]]
         cregs = [["qpd_measurements", int(rng.integers(0, 2))]] if rng.integers(0, 2) else []
         prep = [[o[0], o[1], o[2], []] for o in gen_prep(rng, nq)]
+        nreset = 0
+        if rng.integers(0, 3) == 0:  # the preparation ends with reset(s), preferably on measured qubits
+            meas_q = [locs[k] for k in support(cogc[0][1])] or [locs[0]]
+            pool = meas_q if rng.integers(0, 4) else list(range(nq))
+            for q in [pool[i] for i in rng.permutation(len(pool))[: int(rng.integers(1, 3))]]:
+                prep.append(["reset", [], [int(q)], []])
+                nreset += 1
+        w.count("physics.final_resets", nreset)
         case = exec_physics(dict(kind="physics", nq=nq, locs=locs, omit_locs=omit, cregs=cregs, prep=prep, cog=cogc))
         assert case["impl"][0] == "ok", case["impl"]
         law = own_law(case)
@@ -765,8 +869,11 @@ def generate(rng, tier, outdir):
         "groups taken from those collections (shuffled, random phases) + random/incompatible/wrong-length/empty/num_qubits streams. "
         "meas_reg/meas_circ: small circuits with other classical registers and measurements, identity map or qubit_locations (permuted, "
         "repeated), refusal classes (count mismatch x2, missing register, wrong register size), out-of-range location and duplicate "
-        "register crashes. physics: entangled random preparations on 1..4 qubits, suffix appended by the implementation, outcome law "
-        "from the harness's own numpy simulator, expectation values from qiskit Statevector. distinct = distinct Coq case literal; "
+        "register crashes; in both the group is re-read after the call and must be unchanged. reuse: a group (all-identity, taken out of a "
+        "collection, or consistent random) is used 2..6 times (register / measurement circuit / _process_outcome on 9-bit outcomes) and "
+        "re-read after every step. physics: entangled random preparations on 1..4 qubits, one third ending with 1-2 resets (mostly on "
+        "measured qubits), suffix appended by the implementation, outcome law from the harness's own numpy simulator (ensemble of "
+        "branches after resets), expectation values from qiskit Statevector/DensityMatrix. distinct = distinct Coq case literal; "
         "non-trivial = successful call with >1 observable / non-empty measurement"
     )
 
@@ -838,6 +945,26 @@ def judge(case):
         for j, m in enumerate(ms):
             ok = ok and j < len(masks) and masks[j] == sum(1 << i for i, q in enumerate(idx) if m[1][q] != 0)
         return dict(violates=not ok, detail=f"indices {idx} masks {masks} for general {g} members {ms}")
+    if k in ("meas_reg", "meas_circ", "physics") and "cog_after" in case:
+        prob = _cog_changed(case["cog_fields"], case["cog_after"], "the call")
+        if prob:
+            return dict(violates=True, detail=prob)
+    if k == "reuse":
+        before = case["cog_fields"]
+        for st, after in zip(case["steps"], impl["afters"]):
+            prob = _cog_changed(before, after, f"step {st}")
+            if prob:
+                return dict(violates=True, detail=prob)
+        if impl["errors"]:
+            return dict(violates=True, detail=f"using the group failed: {impl['errors']}")
+        nbits = len(support(before[0][1])) or 1
+        masks_txt = _masks_text(before[0][1], before[1])
+        for o, r, pm1 in impl["outs"]:
+            qf = 1 - 2 * (bin(o >> nbits).count("1") & 1)
+            want = [qf * (1 - 2 * (bin(o & ((1 << nbits) - 1) & m).count("1") & 1)) for m in masks_txt]
+            if r != want or not pm1:
+                return dict(violates=True, detail=f"_process_outcome({o}) = {r}, expected {want} for general {before[0]} members {before[1]}")
+        return dict(violates=False, detail="group unchanged by use; outcomes decoded as stated")
     if k == "meas_reg":
         inp = case["input"]
         if any(f for f, _ in inp["cregs"]):
@@ -854,6 +981,18 @@ def judge(case):
     if k == "physics":
         return _judge_physics(case)
     raise ValueError(k)
+
+
+def _cog_changed(before, after, what):
+    """The recorded fields must still be the freshly built ones and still describe where each member acts."""
+    if after != before:
+        diff = [n for n, a, b in zip(("general_observable", "commuting_observables", "pauli_indices", "pauli_bitmasks"), before, after) if a != b]
+        return (f"the group's recorded {', '.join(diff)} changed after {what}: {[b for a, b in zip(before, after) if a != b]} "
+                f"instead of {[a for a, b in zip(before, after) if a != b]} (general {before[0]}, members {before[1]})")
+    if all(m[0] == 0 and len(m[1]) == len(after[0][1]) for m in after[1]):
+        if after[2] != support(after[0][1]) or after[3] != _masks_text(after[0][1], after[1]):
+            return f"after {what} the recorded indices/masks {after[2]}/{after[3]} do not describe general {after[0]} members {after[1]}"
+    return None
 
 
 def _masks_text(general_lets, group):
@@ -957,6 +1096,8 @@ def rerun(case):
         return exec_cog(case)
     if k in ("meas_reg", "meas_circ"):
         return exec_meas(case)
+    if k == "reuse":
+        return exec_reuse(case)
     if k == "physics":
         return exec_physics(case)
     raise ValueError(k)
